@@ -27,10 +27,11 @@ const (
 	EdFeature    // change the body of a module (features)
 	EdStyleFlip  // change how an import is written (named/star/require/dynamic ...)
 	EdComment    // comment-only edit: the emitted code stays the same, the source map does not
+	EdReorder    // swap two imports of a module (for import() lists: only which chunk is referenced where changes)
 	NumEdits
 )
 
-var editNames = []string{"same-length", "version", "touch", "add-import", "drop-import", "new-module", "delete/restore", "rename", "shadow", "nearer-node_modules", "file<->dir", "package.json", "tsconfig", "break/repair", "feature", "import-style", "comment-only"}
+var editNames = []string{"same-length", "version", "touch", "add-import", "drop-import", "new-module", "delete/restore", "rename", "shadow", "nearer-node_modules", "file<->dir", "package.json", "tsconfig", "break/repair", "feature", "import-style", "comment-only", "reorder-imports"}
 
 // ApplyEdit mutates the model and the disk; it returns a description.
 func ApplyEdit(g G, p *Project, d *verifsim.Disk, inPlace bool) string {
@@ -91,7 +92,7 @@ func ApplyEdit(g G, p *Project, d *verifsim.Disk, inPlace bool) string {
 		imp := Import{Target: t}
 		if isJS(p.Mods[t].Kind) {
 			imp.Style = styleWeights[g.n(len(styleWeights))]
-			if m.Kind == "cjs" && imp.Style != ImpDynamic {
+			if m.Kind == "cjs" && !isDynamic(imp.Style) {
 				imp.Style = ImpRequire
 			}
 			if imp.Style == ImpReexportStar && p.Mods[t].Kind == "cjs" {
@@ -327,6 +328,28 @@ func ApplyEdit(g G, p *Project, d *verifsim.Disk, inPlace bool) string {
 		m := live(true)
 		m.Note++
 		desc += fmt.Sprintf(" %s note=%d", m.Path, m.Note)
+	case EdReorder:
+		m := live(true)
+		// prefer two import() list members; otherwise any two neighbours
+		var list []int
+		for i, im := range m.Imports {
+			if im.Style == ImpDynamicList {
+				list = append(list, i)
+			}
+		}
+		switch {
+		case len(list) >= 2:
+			a := g.n(len(list) - 1)
+			i, j := list[a], list[a+1]
+			m.Imports[i], m.Imports[j] = m.Imports[j], m.Imports[i]
+			desc += fmt.Sprintf(" %s import() list members %d,%d", m.Path, i, j)
+		case len(m.Imports) >= 2:
+			i := g.n(len(m.Imports) - 1)
+			m.Imports[i], m.Imports[i+1] = m.Imports[i+1], m.Imports[i]
+			desc += fmt.Sprintf(" %s imports %d,%d", m.Path, i, i+1)
+		default:
+			return desc + " (none)"
+		}
 	case EdStyleFlip:
 		m := live(true)
 		if len(m.Imports) == 0 {
